@@ -174,6 +174,12 @@ def check_C07(tier, seed):
         v.add_tlc("inc_quick.cfg", res, ["P_C13_Flatten"])
         res.behaviours = [b for b in res.behaviours if any(t["v"] == "include" for t in b["parses"][0]["toks"])]
         inccheck.replay(v, exe, res, aspects={"balance"}, seed=seed, tag="C07inc")
+    # file-name resolution: search-path sequences x regular file / directory / nothing under the looked-up name,
+    # through cfg_searchpath, cfg_parse and include(): everything acquired on the way is released
+    from . import spcheck
+    res = run_tlc("MC_SP.tla", os.path.join("mc", "sp_quick.cfg"))
+    v.add_tlc("sp_quick.cfg", res, ["P_C17_DirsNeverMatch"])
+    spcheck.replay(v, exe, res, seed=seed, tag="C07sp", sigprefix="searchpath", only_balance=True)
     v.cov["exhaustive"] = True
     return v.finish(rule="every token sequence up to the configured length (every cut and corruption point of every short text) "
                          "over schemas with pointer-valued options, lists, nested and titled sections (replacement in place) and functions, "
